@@ -18,9 +18,9 @@
 (* cfg: [curve, hash, fmt, dem, salt]                                              *)
 EXTENDS HKDFLabeled, AESGCM, EtM, SIV
 
-Curves == {"P256", "P384", "P521"}
-PointFormats == {"UNCOMPRESSED", "COMPRESSED", "DO_NOT_USE_CRUNCHY_UNCOMPRESSED"}
-DEMs == {"AES128GCM", "AES256GCM", "AES128CTRHMAC", "AES256CTRHMAC", "AES256SIV"}
+EciesCurves == {"P256", "P384", "P521"}
+EciesPointFormats == {"UNCOMPRESSED", "COMPRESSED", "DO_NOT_USE_CRUNCHY_UNCOMPRESSED"}
+EciesDEMs == {"AES128GCM", "AES256GCM", "AES128CTRHMAC", "AES256CTRHMAC", "AES256SIV"}
 
 FieldLen(c) == CASE c = "P256" -> 32 [] c = "P384" -> 48 [] c = "P521" -> 66
 
